@@ -112,6 +112,13 @@ def rw_R10(text):
     return pat.sub(lambda m: 'for %s in 0..%s.len() { let %s = &%s[%s];' % (m.group(1), m.group(3), m.group(2), m.group(3), m.group(1)), text), n
 
 
+def rw_R11(text):
+    """if let Some(&x) = E {   ->   if let Some(__r) = E { let x = *__r;"""
+    pat = re.compile(r'if\s+let\s+Some\(&(\w+)\)\s*=\s*([^{]+?)\s*\{')
+    n = len(pat.findall(text))
+    return pat.sub(lambda m: 'if let Some(__r) = %s { let %s = *__r;' % (m.group(2), m.group(1)), text), n
+
+
 def rw_R9(text):
     """RECV.map(|PAT| BODY)  ->  (match RECV { Some(PAT) => Some(BODY), None => None })   for a simple-path receiver"""
     n = 0
@@ -138,7 +145,7 @@ def rw_R9(text):
     return out, n
 
 
-REWRITES = {'R10': rw_R10, 'R9': rw_R9, 'R1': rw_R1, 'R2': rw_R2, 'R3': rw_R3, 'R4': rw_R4, 'R5': rw_R5, 'R8': rw_R8}
+REWRITES = {'R11': rw_R11, 'R10': rw_R10, 'R9': rw_R9, 'R1': rw_R1, 'R2': rw_R2, 'R3': rw_R3, 'R4': rw_R4, 'R5': rw_R5, 'R8': rw_R8}
 REWRITE_DOC = {
     'R1': 'for &T{f,..} in &E[a..b]  ->  for __i in a..b { let f = E[__i].f; (Verus: no ref patterns)',
     'R2': 'Some(&b) => b  ->  Some(b) => *b (Verus: no ref patterns)',
@@ -150,6 +157,7 @@ REWRITE_DOC = {
     'R8': 'dropped: #[cfg(all(test, feature = "std"))] PATTERN_MAPPING statement',
     'R9': 'RECV.map(|PAT| BODY) -> match RECV { Some(PAT) => Some(BODY), None => None } (Verus cannot reason about un-annotated closures)',
     'R10': 'for (i, x) in V.iter().enumerate() -> for i in 0..V.len() { let x = &V[i]; (Verus: no iterator adapters)',
+    'R11': 'if let Some(&x) = E { -> if let Some(__r) = E { let x = *__r; (Verus: no ref patterns)',
     'ARMSUB': 'a named match arm (delegation to regex-automata) is replaced by a call to an assumed shim; the dropped text is listed in dropped_code',
 }
 
@@ -335,7 +343,7 @@ class UnitBuilder:
             blks = [b for b in B0.match_blocks() if hdr in b['header']]
             if len(blks) != 1:
                 raise BuildError('%s: armsub: %d match blocks with header containing %r' % (where, len(blks), hdr))
-            arms = [x for x in B0.arms(blks[0]) if x['pat'].startswith(pat)]
+            arms = [x for x in B0.arms(blks[0]) if re.match(re.escape(pat) + r'(?![A-Za-z0-9_])', x['pat'])]
             if len(arms) != 1:
                 raise BuildError('%s: armsub: %d arms starting with %r' % (where, len(arms), pat))
             arm = arms[0]
@@ -448,7 +456,7 @@ class UnitBuilder:
             blks = [b for b in B.match_blocks() if hdr in b['header']]
             if len(blks) != 1:
                 raise rsx.ScanError('arm: %d match blocks with header containing %r' % (len(blks), hdr))
-            arms = [x for x in B.arms(blks[0]) if x['pat'].startswith(pat)]
+            arms = [x for x in B.arms(blks[0]) if re.match(re.escape(pat) + r'(?![A-Za-z0-9_])', x['pat'])]
             if len(arms) != 1:
                 raise rsx.ScanError('arm: %d arms starting with %r' % (len(arms), pat))
             arm = arms[0]
